@@ -250,11 +250,14 @@ func (ro *RedisOutput) SetRunId(ctx context.Context, id string) error {
 		defer cli.Close()
 		err = checkpoint.UpdateCheckpoint(cli, ro.cfg.CheckpointName, []string{id, ro.cfg.RunId})
 		if err != nil {
+			// keep the previous id : the retry has to re-key from it again, re-keying from
+			// the new id would find nothing and file an initial position over the live one
 			ro.logger.Errorf("update checkpoint error : cp(%s), runId(%s,%s), err(%v)", ro.cfg.CheckpointName, id, ro.cfg.RunId, err)
+			return err
 		}
 		ro.logger.Infof("UpdateCheckpoint : cp(%s), runId(%s,%s)", ro.cfg.CheckpointName, id, ro.cfg.RunId)
 		ro.cfg.RunId = id
-		return err
+		return nil
 	}, 3, time.Second*4, 0.3)
 }
 
